@@ -12,6 +12,7 @@ import Pymc.Model.Conn
 import Pymc.Model.Failover
 import Pymc.Model.PoolConc
 import Pymc.Model.Pooled
+import Pymc.Model.PooledCall
 import Pymc.Model.Serde
 import Pymc.Model.Aws
 import Pymc.Model.HashRoute
@@ -518,6 +519,53 @@ def handlePooled (ws : List String) : Option String := do
   let free := ",".intercalate (st.free.map fun c => toString c.id ++ "/" ++ showO c.conn)
   pure s!"ok obs=[{obs}] free=[{free}] closed=[{",".intercalate (st.closed.map toString)}] out={st.used.length}"
 
+/-! ### C01/C09: `PooledClient ∘ Client` (`Pymc/Model/PooledCall.lean`), a whole history in one line (stateless)
+
+`pooledcall cfg=<au><utf8><dnr><ign>:<pfxhex> pool=<max>,<idle> <call> | <call> | …`
+
+* `cfg=` as for `call`; its `<ign>` flag is the `ignore_exc` of the `PooledClient` (inner clients never ignore);
+* `pool=` is `max_pool_size,pool_idle_timeout` (ticks; `0` = never expires);
+* the calls are separated by a token `|`; each `<call>` is `op=… <arguments of the op> [cf=x<code>] [sf=x<code>]
+  [t=<checkout>,<release>] ev=… ev=…` with the tokens of the `call` command (no `open=`: whether the inner client has
+  a socket is decided by the pool); `t=` defaults to `0,0`.
+
+Reply: `ok <obs> | <obs> | … ; free=[<id>/<conn>/<open>/<events left>,…] closed=[…] out=<checked out>` with one `<obs>` per
+call: `res=<result token of call, or exc:TooManyObjects> client=<id|-> io=<conn|-> conn=<conn held afterwards|->
+open=<0|1> unread=<bytes left in the pipe of that client's socket, 0 if it has none> cons=<tags of the consumed recv() results>`. -/
+def splitOnTok (ws : List String) (sep : String) : List (List String) :=
+  ws.foldr (fun w acc =>
+    if w = sep then [] :: acc
+    else match acc with
+      | [] => [[w]]
+      | h :: t => (w :: h) :: t) [[]]
+
+def handlePooledCall (ws : List String) : Option String := do
+  let (cfg, ign) ← parseCfg ws
+  let pl ← natList (← arg ws "pool")
+  let pcfg : Pooled.Cfg ← match pl with | [m, i] => some ⟨m, i⟩ | _ => none
+  let calls ← (splitOnTok ws "|").mapM fun seg => do
+    let c ← parseCall seg
+    let cf ← parseExcOpt ((arg seg "cf").getD "-")
+    let sf ← parseExcOpt ((arg seg "sf").getD "-")
+    let evs ← evsOf seg
+    let t ← natList ((arg seg "t").getD "0,0")
+    let (now, fin) ← match t with | [a, b] => some (a, b) | _ => none
+    pure ((c, ({ connectFails := cf, sendFails := sf, evs := evs } : Exchange.Script), now, fin) : PooledCall.PCall)
+  let (st, obs) := PooledCall.runP cfg pcfg ign {} 0 calls
+  let showO := fun (o : Option Nat) => match o with | some i => toString i | none => "-"
+  let showOb := fun (ob : PooledCall.PObs) =>
+    let res := match ob.res with | some r => showExcept r | none => "exc:TooManyObjects"
+    let unread := if !ob.sockOpenAfter then 0 else match ob.step with
+      | some stp => (Readers.joinData (stp.leftover.map fun (te : Framing.TEv) => te.2)).length
+      | none => 0
+    let cons := match ob.step with
+      | some stp => if stp.consumed = [] then "-" else ",".intercalate (stp.consumed.map fun (te : Framing.TEv) => toString te.1)
+      | none => "-"
+    s!"res={res} client={showO ob.client} io={showO ob.io} conn={showO ob.connAfter} open={if ob.sockOpenAfter then 1 else 0} unread={unread} cons={cons}"
+  let free := ",".intercalate (st.free.map fun c =>
+    s!"{c.id}/{showO c.conn}/{if c.sockOpen then 1 else 0}/{c.pipe.length}")
+  pure s!"ok {" | ".intercalate (obs.map showOb)} ; free=[{free}] closed=[{",".intercalate (st.closed.map toString)}] out={st.used.length}"
+
 /-! ### C12: `batches seed=<n> nodes=<cps>;<cps> keys=<routing cps>~<key>|…` -/
 def handleBatches (ws : List String) : Option String := do
   let seed ← (← arg ws "seed").toNat?
@@ -613,6 +661,7 @@ def handle (ws : List String) : String :=
     | "failover" :: rest => handleFailover rest
     | "pool" :: rest => handlePool rest
     | "pooled" :: rest => handlePooled rest
+    | "pooledcall" :: rest => handlePooledCall rest
     | "serde" :: rest => handleSerde rest
     | "aws.discover" :: rest => handleAwsDiscover rest
     | "aws.reconf" :: rest => handleAwsReconf rest
